@@ -758,6 +758,8 @@ class Engine(object):
                                 res_.append(Out(NEXT, st3))
                         return res_
                     st2.facts['__withval'] = v
+                    if hasattr(self.model, 'with_enter'):
+                        self.model.with_enter(v, st2, s)
                     if item.optional_vars is not None:
                         return self.assign(item.optional_vars, ('ctx', v), st2)
                     return [Out(NEXT, st2)]
@@ -788,8 +790,12 @@ class Engine(object):
                                     nxt_.append(b)
                             cur = nxt_
                         else:
+                            nxt_ = []
                             for b in cur:
-                                self.model.with_exit(v, b.st, s)
+                                tok_ = self.model.with_exit(v, b.st, s)
+                                # __exit__ itself failed (releasing a lock that is not held): that exception replaces whatever was leaving the block
+                                nxt_.append(Out(RAISE, b.st, exc=tok_, line=getattr(s, 'lineno', 0)) if isinstance(tok_, str) else b)
+                            cur = nxt_
                     res.extend(cur)
         return res
 
